@@ -1598,6 +1598,19 @@ pub fn plant(base: &AppSpec, rule: usize, raw: u16) -> Option<Planted> {
             nontrivial = true;
             what = format!("middleware x{m} ({:?}) asks for PathParams with a field that is in no route template", spec.comps[m].kind);
         }
+        _ if raw % 4 == 2 && comps.iter().filter(|c| spec.comps[**c].kind == CompKind::Handler && !spec.comps[**c].route.as_ref().is_some_and(|r| r.path.contains('{'))).count() >= 2 => {
+            // one parameter struct shared by two routes: one template has the field, the other has not
+            let hs: Vec<usize> = comps.iter().copied().filter(|c| spec.comps[*c].kind == CompKind::Handler && !spec.comps[*c].route.as_ref().is_some_and(|r| r.path.contains('{'))).collect();
+            let a = choose(hs.len());
+            let b = (a + 1 + choose(hs.len() - 1)) % hs.len();
+            let (good, bad) = (hs[a], hs[b]);
+            let r = spec.comps[good].route.as_mut()?;
+            r.path = format!("{}/{{shared}}", r.path.trim_end_matches('/'));
+            r.path_param_fields = vec!["shared".into()];
+            spec.comps[bad].route.as_mut()?.path_param_fields = vec!["shared".into()];
+            nontrivial = true;
+            what = format!("handlers x{good} and x{bad} share one PathParams struct; its field is in the template of x{good} only");
+        }
         _ => {
             let hs: Vec<usize> = comps.iter().copied().filter(|c| spec.comps[*c].kind == CompKind::Handler).collect();
             if hs.is_empty() {
